@@ -304,8 +304,18 @@ def fuzzy_summary(ctx):
             elif r[0] in ('top',):
                 probs.append('store through an untracked pointer at %s' % fn.loc(ins))
     allowed = {'a_pid_fuzzy_mf', 'a_pid_set_kpid', None}
+    mod_ = ctx.module('pid_fuzzy')
     for n, ins in eff['calls']:
         if n not in allowed and not (n or '').startswith('llvm.'):
+            callee = mod_.functions.get(n)
+            if callee is not None and not callee.error and 'internal' in (callee.linkage or ''):
+                # a file-local helper (part of the scheduler extracted into a static function): it must not store or call anything itself
+                ce = effects.effects(callee)
+                bad_st = [1 for roots, _ in ce['stores'] for r in roots if r[0] in ('param', 'top')]
+                bad_ca = [c for c, _ in ce['calls'] if c is not None and not c.startswith('llvm.')]
+                if bad_st or bad_ca:
+                    probs.append('calls the helper %s, which stores through its arguments or calls %s' % (n, bad_ca))
+                continue
             probs.append('calls %s' % n)
     # the final call passes base gains + offsets
     setk = [ins for n, ins in eff['calls'] if n == 'a_pid_set_kpid']
